@@ -108,7 +108,7 @@ class Interp:
 
             def target():
                 self.run_unit(child_unit, inner, {})
-            th = lcc.Thread(target=target)
+            th = lcc.Thread(target=target, name=act["name"]) if act.get("name") else lcc.Thread(target=target)
             th._lccverif_parent = self.namer("other")
             th.start()
             th.join()
